@@ -19,10 +19,14 @@ def random_cfg(r, big=False):
 
 
 def history_task(item):
-    seed, oracles, minimise = item
+    seed, oracles, minimise = item[:3]
+    fft = len(item) > 3 and item[3]
     r = random.Random(seed)
     cfg = random_cfg(r)
-    ops = world_edit.gen_history(r, cfg["n"], n_moves=r.choice([0, 3, 8, 15, 30]), p_fault=r.choice([0.0, 0.1, 0.25]),
+    if fft:
+        # grids from 1000 points take the FFT convolution branch; data stay inside a small dynamic range (C02's window)
+        cfg.update(n=r.choice([2, 3, 4, 5]), grid=r.choice([1000, 1024, 1100]), style=r.choice(["gauss", "flat"]), samples=r.choice([1, 2]))
+    ops = world_edit.gen_history(r, cfg["n"], n_moves=(r.choice([0, 3, 8, 15, 30]) if not fft else r.choice([0, 2, 5])), p_fault=r.choice([0.0, 0.1, 0.25]),
                                  outliers=cfg["outlier_prob"] > 0)
     probs, st = world_edit.run_history(cfg, ops, oracles)
     out = {"seed": seed, "cfg": cfg, "n_ops": len(ops), "stats": {k: v for k, v in st.items() if k != "state_set"},
@@ -43,8 +47,10 @@ def history_task(item):
     return out
 
 
-def run_histories(ctx, oracles, n_hist, tag="h"):
-    items = [(ctx.sub((tag, i)), sorted(oracles), True) for i in range(n_hist)]
+def run_histories(ctx, oracles, n_hist, tag="h", fft=False):
+    items = [(ctx.sub((tag, i)), sorted(oracles), True, fft) for i in range(n_hist)]
+    if fft:
+        ctx.probe("histories_on_fft_sized_grids", n_hist)
     res = runner.pmap(history_task, items, timeout=1200)
     states = set()
     tot_ops = 0
